@@ -5,7 +5,10 @@ CONFIG = dict(
     technique=("rapid-generated multi-session histories over a durable-operation recorder (crashlog); every prefix of the "
                "recorded log is replayed into fresh stores and restarted (exhaustive crash-point enumeration per history)"),
     level_text=("For each generated history (1-3 sessions of open/put/delete/batch/drop/reopen/Flush over flushable.SyncedPool "
-                "and over flaggedproducer.Wrap, both on the crashlog producer) EVERY prefix of the durable-operation log "
+                "and over flaggedproducer.Wrap, both on the crashlog producer; for the pool also steps 'Flush || (puts; Drop of an open "
+                "database) by a second goroutine', where the harness owns the schedule: the k-th operation of the flush on the "
+                "underlying store of another database - Close/Drop inside the close-and-drop loop, marker put, data batch - blocks on a "
+                "gate until the second goroutine has finished, k drawn, or the drop is issued right before/after the flush) EVERY prefix of the durable-operation log "
                 "(create, put, delete, atomic batch write, drop records) is taken as a crash point: a fresh producer stack is "
                 "started over the replayed state, Initialize(surviving names, nil) is called and its answer is compared with "
                 "snapshots taken when each Flush returned. Crash points are enumerated completely per history; histories are sampled."),
@@ -15,16 +18,23 @@ CONFIG = dict(
           "non-initialised) is accepted; a nil flush id requires all surviving stores to be empty; a flush id must be the id of a "
           "completed Flush(N) and every surviving store must equal the raw snapshot S_N[name] taken when Flush(N) returned "
           "(marker keys included in the comparison; stores unknown to S_N must be empty); sanity: a restart exactly at the end "
-          "of a completed flush with >= 1 surviving database must return that flush's id. evaluations = crash points checked. "
+          "of a completed flush with >= 1 surviving database must return that flush's id. Independently of the snapshots the "
+          "harness keeps the caller's own record of dropped names: a restart that reports Flush(N) without error must find every "
+          "database whose Drop() had returned before Flush(N) was called (and that was not opened again) absent or empty; a Drop() "
+          "issued by another goroutine while Flush(N) runs is concurrent with it (either order is accepted for N: the snapshot "
+          "decides) and binds from Flush(N+1) on. evaluations = crash points checked. "
           "Non-trivial = crash point strictly inside a flush (after its first marker record, not after its last one) that "
           "marked >= 2 databases; distinct by hash of (variant, log, p)."),
     assumptions=[
         "a crash preserves a prefix of the globally ordered durable operations (single process, synchronous writes)",
         "a batch Write is atomic; batch writes without operations have no durable effect and are not crash points",
-        "callers use unique flush ids, do not use a store after dropping it, and with SyncedPool reopen a dropped name only after the next Flush",
+        "callers use unique flush ids, do not use a store after dropping it, and with SyncedPool reopen a dropped name only after the next Flush "
+        "(after the next Flush that was called after Drop() returned, for a drop that overlapped a flush)",
+        "while a SyncedPool.Flush runs, other goroutines only write to and Close+Drop pool databases (OpenDB/Flush/Close of the pool are serialised by the caller)",
         "'every database' in the property is read as 'every surviving database' (DESIGN.md §4 C25)",
     ],
     units=[
-        dict(test="TestC25CrashPoints", quick=1500, thorough=240000, shards=16, env={"GOGC": "400"}),
+        dict(test="TestC25CrashPoints", quick=1300, thorough=200000, shards=16, env={"GOGC": "400"}),
+        dict(test="TestC25DropRacesFlush", quick=400, thorough=60000, shards=16, env={"GOGC": "400"}),
     ],
 )
